@@ -57,8 +57,8 @@ Definition own_code (init : binit) (c : code) : bool :=
    end instruction of a body is elided when it equals the last instruction of
    the table, and a first body that emits nothing sees the previous program's
    last instruction *)
-Definition elides_across (init : binit) (alone : code) : bool :=
-  match i_last_instr init, k_instrs alone with
-  | Some li, [e] => instr_eqb li e && instr_eqb e (I_EndExpression, ONone)
-  | _, _ => false
+Definition elides_across (init : binit) (alone shared : code) : bool :=
+  match i_last_instr init, k_instrs alone, k_instrs shared with
+  | Some li, [e], [] => instr_eqb li e && instr_eqb e (I_EndExpression, ONone)
+  | _, _, _ => false
   end.
